@@ -69,4 +69,19 @@ PROPS = {
                 rule="all first words + multi-word prefixes x adversarial register files (0,1,2,3,FFFFFFFF,region edges +-4, odd values, 00FFFFFF, 01000000) x CCR 00/FF x 4 bus-controller settings x PC in every mapped region incl. its last 2/4/6 bytes and at unmapped addresses, in BOTH build profiles (release; release+overflow-checks+debug-assertions); the spec's outcome alphabet is {ok, err}: a recorded panic matches no action", assumptions=COMMON_ASSUME),
     "C19": dict(drivers=[dict(name="cost", args=["cost-table", "--out", "{out}", "--seed", "{seed}"])], mc=[], exhaustive=True,
                 rule="exhaustive per-area setting space (8-/16-bit x 2-/3-state x 4 wait values x 8 DRAM selects; areas 3-5 with DRAM select 0/1 only) x 6 cycle kinds x counts 1-5 x both ends + interior of all 8 areas + on-chip RAM ends, the OTHER areas' bits filled all-0 / all-1 / two random ways; on-chip I/O register addresses excluded; each evaluation of the real calc_state / calc_state_with_addr is one event validated against H8Cost.CycleCost", assumptions=COMMON_ASSUME),
+    "C09": dict(drivers=[dict(name="scan", module="TraceBus.tla", args=["bus-scan", "--out", "{out}", "--seed", "{seed}"]),
+                         dict(name="hist", module="TraceBus.tla", args=["bus-history", "--tier", "{tier}", "--out", "{out}", "--threads", "{threads}", "--seed", "{seed}"]),
+                         step_cases("C09", name="wl")],
+                mc=[], exhaustive=True,
+                rule="(a) Bus::read on ALL 2^24 addresses + 6,000 samples at/above 2^24, observed as maximal intervals of equal outcome, must EQUAL the spec's region list; write-tag/read-back of every address with two different tag functions (no aliasing, failed writes change nothing); (b) seeded interleaved histories of byte writes/reads at region edges +-4, holes, seams, above 2^24, each with whole-bus diff, threaded through the spec's memory; (c) word/long accesses through MOV instructions at region edges (big-endian composition)", assumptions=COMMON_ASSUME),
+    "C16": dict(gen=[dict(name="port1", module="MC_Port.tla", cfg="Gen_Port_t.cfg", cfg_q="Gen_Port_q.cfg"),
+                     dict(name="port2", module="MC_Port.tla", cfg="Gen_Port2_t.cfg", cfg_q="Gen_Port2_q.cfg")],
+                mc=[dict(module="MC_Port.tla", cfg="MC_Port2.cfg")],
+                drivers=[dict(name="p1", module="TraceBus.tla", args=["port-replay", "--tier", "{tier}", "--in", "{port1}", "--out", "{out}", "--threads", "{threads}", "--seed", "{seed}"]),
+                         dict(name="p2", module="TraceBus.tla", args=["port-replay", "--tier", "{tier}", "--in", "{port2}", "--out", "{out}", "--threads", "{threads}", "--seed", "{seed}"])],
+                count_traces="histories",
+                rule="TLC enumerates EVERY history of {write DDR, write DR, external input} x 4 values to depth 5 on one port (248,832; thorough depth 6 x 3 values) and every two-port interleaving to depth 3 (4 in thorough); each is replayed into the real Bus (slots mapped over all 11 ports and port pairs), plus seeded random length-20..60 histories with arbitrary bytes and invalid port numbers; per event: DR read-back, announcement rule, time stamps, all other ports and all other memory unchanged", assumptions=COMMON_ASSUME),
+    "C17": dict(mc=[], drivers=[dict(name="timer", module="TraceBus.tla", args=["timer-replay", "--tier", "{tier}", "--out", "{out}", "--threads", "{threads}", "--seed", "{seed}"])],
+                count_traces="histories",
+                rule="seeded histories: all 256 TCR values, TCORA/TCORB/TCNT start values (boundary + random; the property's exclusions respected, violated now and then = 'open' class), charges from {1,2,3,7,8,9,15,16,17,63,64,65,100,128,200,255} + random 1..255, interleaved CPU writes to TCR (clock change / same clock), TCNT, TCORx, TCSR; the set of prescaler phases consistent with the observations is tracked by the spec, an observation no phase explains is a violation", assumptions=COMMON_ASSUME),
 }
